@@ -113,7 +113,8 @@ def run_r1(repo: Repo, res: Result, rule_id: str = "C03.R1") -> None:
         else:
             n += 1
             res.add(rule_id, f"{fi.relpath}::{getattr(fi, 'shown', fi.qualname)}::no push", True, "the search never extends its worklist beyond the subject's subtree", where(fi, fi.node), nontrivial=False)
-    res.floor(rule_id, 4, n)
+    if not any(u["rule"] == rule_id for u in res.undecided):  # an undecided search already says why fewer obligations were formed
+        res.floor(rule_id, 4, n)
 
 
 # --------------------------------------------------------------------------- shared: classes and entry points
